@@ -205,6 +205,17 @@ class C24:
     REQUIRED_REACH = ["reach.seq.evict", "reach.conc.switch_inside_op", "reach.conc.lock_contended",
                       "reach.conc.listing_overlaps_writer", "reach.lin.checked"]
 
+    def extra_coverage(self, out):
+        # finite space of the sequential part: (class, capacity 1..4, MRU->LRU arrangement of <=capacity
+        # of the 5 keys, operation kind, key present?) - 2 * (96 + 436 + 1456 + 3496) feasible tuples
+        total = 2 * sum(11 + (sum(_perm(5, k) for k in range(cap + 1)) - 1) * 17 for cap in (1, 2, 3, 4))
+        reached = len(out["states"])
+        return {"seq_state_op_pairs_total": total, "seq_state_op_pairs_reached": reached,
+                "seq_state_op_pairs_fraction": round(reached / total, 4),
+                "exhaustive": False,
+                "seq_space_note": "seeded search, not enumeration: the fraction of the finite sequential "
+                                  "(state, operation) space reached by this run is reported so the gap is visible"}
+
     # -- generation ------------------------------------------------------------
     def gen(self, run_seed, tier):
         rng = Rng(run_seed, ("gen",))
@@ -496,6 +507,13 @@ class C24:
                 return [[op[0], m[op[1]]] + op[2:] if len(op) > 1 and isinstance(op[1], int) else op
                         for op in ops]
             yield {**sc, "threads": [{**t, "ops": rk(t["ops"])} for t in th], "prefill": rk(sc["prefill"])}
+
+
+def _perm(n, k):
+    r = 1
+    for i in range(k):
+        r *= n - i
+    return r
 
 
 def _main():
